@@ -1,16 +1,81 @@
 package main
 
 import (
+	"encoding/json"
 	"fmt"
-
-	"github.com/anishathalye/porcupine"
-	"tags.cncf.io/container-device-interface/pkg/cdi"
-	"tags.cncf.io/container-device-interface/schema"
+	"os"
+	"strconv"
 )
 
+type checkFn func(c *Ctx)
+
+var checks = map[string]checkFn{}
+
+func register(id string, fn checkFn) { checks[id] = fn }
+
+func usage() {
+	fmt.Fprintln(os.Stderr, "usage: vcheck run <Cxx> quick|thorough | vcheck replay <Cxx> <file> | vcheck child-<mode> ...")
+	os.Exit(2)
+}
+
 func main() {
-	_ = porcupine.Ok
-	_ = schema.BuiltinSchema()
-	cdi.VerifSetHook(nil)
-	fmt.Println("ok")
+	if len(os.Args) < 2 {
+		usage()
+	}
+	switch cmd := os.Args[1]; {
+	case cmd == "run" && len(os.Args) >= 4:
+		os.Exit(runCheck(os.Args[2], os.Args[3]))
+	case cmd == "replay" && len(os.Args) >= 4:
+		data, err := os.ReadFile(os.Args[3])
+		if err != nil {
+			fmt.Fprintln(os.Stderr, err)
+			os.Exit(2)
+		}
+		var rep struct {
+			Seed int64  `json:"seed"`
+			Tier string `json:"tier"`
+			Case string `json:"case"`
+		}
+		if err := json.Unmarshal(data, &rep); err != nil {
+			fmt.Fprintln(os.Stderr, err)
+			os.Exit(2)
+		}
+		os.Setenv("VERIF_SEED", strconv.FormatInt(rep.Seed, 10))
+		os.Setenv("VERIF_CASE", rep.Case)
+		fmt.Printf("replaying %s case %q (seed %d, tier %s)\n", os.Args[2], rep.Case, rep.Seed, rep.Tier)
+		os.Exit(runCheck(os.Args[2], rep.Tier))
+	case len(cmd) > 6 && cmd[:6] == "child-":
+		os.Exit(runChild(cmd[6:], os.Args[2:]))
+	default:
+		usage()
+	}
+}
+
+func runCheck(id, tier string) int {
+	fn, ok := checks[id]
+	if !ok {
+		fmt.Fprintf(os.Stderr, "no check for %s\n", id)
+		return 2
+	}
+	if tier != "quick" && tier != "thorough" {
+		usage()
+	}
+	c := newCtx(id, tier)
+	fn(c)
+	return c.Finish()
+}
+
+type childFn func(args []string) int
+
+var children = map[string]childFn{}
+
+func registerChild(mode string, fn childFn) { children[mode] = fn }
+
+func runChild(mode string, args []string) int {
+	fn, ok := children[mode]
+	if !ok {
+		fmt.Fprintf(os.Stderr, "no child mode %s\n", mode)
+		return 2
+	}
+	return fn(args)
 }
